@@ -234,8 +234,10 @@ class IoWorld:
         self.nontrivial = False
         self.cells = set()
         self.recover = set()  # paths whose next acknowledged write+read must pass (after a fault)
+        self.held: List[Dict[str, Any]] = []  # results of earlier judged reads kept by a client and looked at again later
 
     def close(self):
+        self.held.clear()
         shutil.rmtree(self.root, ignore_errors=True)
 
     # ------------------------------------------------------------ file system observation
@@ -593,6 +595,13 @@ class _Ops:
             out.digest = digest_bytes(data.tensor().numpy().tobytes())
         else:
             out.digest = digest_bytes(data.numpy().tobytes())
+        if op.get("hold") and data is not None and not out.violations:
+            # a client keeps the object it was handed and looks at it again after later operations on the files
+            t = data.tensor() if hasattr(data, "tensor") else data
+            files = {f: (os.stat(self.full(f)).st_ino, os.path.getsize(self.full(f))) for f in sorted(rec.files) if os.path.isfile(self.full(f))}
+            self.held.append({"name": name, "entry": entry, "files": files, "tensor": t, "snap": t.numpy().copy(), "rec": rec})
+            self.held = self.held[-3:]
+            self.c["probes"]["read_result_held"] += 1
         self._after_judged_read(name, out)
         return out
 
@@ -685,13 +694,48 @@ class _Ops:
         self.recover.add(name)
         return StepResult("ok", "torn")
 
+    def _drop_held(self, files: set):
+        """Results backed by files that a party other than deepali's writer is about to modify in place are let go
+        untouched (a memory-mapped result of a file truncated by someone else is not deepali's doing)."""
+        self.held = [h for h in self.held if not (set(h["files"]) & files)]
+
+    def _recheck_held(self, opdesc: str) -> List[Violation]:
+        """A result handed out by an earlier read must still hold the values it was read with."""
+        out: List[Violation] = []
+        keep = []
+        for h in self.held:
+            unsafe = None
+            for f, (ino, size) in h["files"].items():
+                p = self.full(f)
+                # deepali returns tensors backed by nibabel's memory map for uncompressed NIfTI data files
+                mapped = f.endswith(".nii") or f.endswith(".img")
+                if mapped and os.path.isfile(p) and os.stat(p).st_ino == ino and os.path.getsize(p) < size:
+                    unsafe = f  # rewritten in place and shorter now: touching a memory-mapped result could fault
+            self.c["checks"]["held_read_result_rechecked"] += 1
+            if unsafe is not None:
+                out.append(self.viol("read-result-invalidated", h["entry"] + "+" + opdesc, h["name"], h["rec"], {"file_rewritten_in_place": unsafe}, f":{h['rec'].writer}->deepali"))
+                continue
+            now = h["tensor"].numpy()
+            if now.shape != h["snap"].shape or not np.array_equal(now, h["snap"], equal_nan=True):
+                out.append(self.viol("read-result-changed", h["entry"] + "+" + opdesc, h["name"], h["rec"], {"after": opdesc}, f":{h['rec'].writer}->deepali"))
+                continue
+            keep.append(h)
+        self.held = keep
+        return out
+
     def apply(self, op: Dict[str, Any]) -> StepResult:
         kind = op["op"]
         fn = getattr(self, "op_" + kind, None)
         if fn is None:
             raise HarnessError(f"unknown op {kind}")
         self.c["ops"][kind] += 1
+        if self.held and (kind in ("swrite", "torn") or op.get("entry") == "sitk_bridge") and "name" in op:
+            stem = self.stem_of(op["name"])
+            self._drop_held({f for h in self.held for f in h["files"] if f.startswith(stem + ".")})
         sr = fn(op)
+        if self.held and kind in ("dwrite", "delete") and sr.status in ("ok", "faulted"):
+            self.nontrivial = True
+            sr.violations.extend(self._recheck_held(kind + ":" + suffix_of(op["name"])))
         self.hist.append(f"{kind}:{sr.status}:{suffix_of(op['name']) if 'name' in op else ''}:{op.get('entry', '')}:{op.get('kind', '')}")
         self.note_state(kind)
         return sr
@@ -802,6 +846,8 @@ class _Gen:
                 op["form"] = rng.weighted([("str", 4), ("path", 2), ("uri", 0 if op["entry"] == "Grid.from_file" else 1), ("rel", 1)])
                 if op["entry"] in ("from_sitk", "FlowField.from_sitk"):
                     op["form"] = "str"
+                if op["entry"] in ("Image.read", "read_image", "FlowField.read") and rng.chance(0.4):
+                    op["hold"] = True
                 if op["entry"] == "meta_reader":
                     op["chunk"] = rng.choice([1, 3, 7, 64]) if sc["faults"]["short_io"] else 1 << 20
             return op
